@@ -205,6 +205,24 @@ func TestC08(t *testing.T) {
 				}
 			}
 		}
+		if ti.WireL <= 0 && mine() {
+			// variable-length text: every payload of 0..6 octets over an alphabet of NUL, ASCII, the octets of the UTF-8
+			// byte order mark, a lead octet, a continuation octet and 0xFF
+			al := []byte{0x00, 0x41, 0xef, 0xbb, 0xbf, 0xc3, 0x80, 0xff}
+			var rec2 func(p []byte, n int)
+			rec2 = func(p []byte, n int) {
+				if len(p) == n {
+					try(append([]byte{}, p...))
+					return
+				}
+				for _, a := range al {
+					rec2(append(p, a), n)
+				}
+			}
+			for n := 0; n <= 6; n++ {
+				rec2(nil, n)
+			}
+		}
 		if ti.Main == 16 && mine() {
 			// texts that are well-formed UTF-8 (what a sender with the wrong character set transmits): every pair and
 			// some longer runs of code points from each UTF-8 length class, alone and mixed with ASCII
